@@ -121,7 +121,7 @@ class _Skip(Exception):
 
 
 def run_impl(dialect, override, per_mig, hist, cmd, target, start_rows, bodies, conn_mode=None, dopts=None, prefix=None,
-             none_key=False):
+             none_key=False, pm_int=False):
     """returns dict(toks, migs(for the model), dropVT, tddl, steps) or dict(err=...).
     prefix (a list of [dialect, override] pairs, possibly empty): the multidb shape - one EnvironmentContext, one
     configure()/begin_transaction()/run_migrations() per entry of prefix, each into a buffer of its own, and then the
@@ -177,6 +177,9 @@ def run_impl(dialect, override, per_mig, hist, cmd, target, start_rows, bodies, 
     def on_apply(ctx, step, heads, run_args):
         heads_after.append(sorted(heads))
 
+    if pm_int:
+        # a truth value that is not a bool: `transaction_per_migration=int(config.get_main_option(...))`
+        per_mig = int(per_mig)
     opts = {
         "as_sql": True,
         "output_buffer": buf,
@@ -308,7 +311,7 @@ def leaked_override(inp):
 
 
 def one_case(ctx, dialect, override, per_mig, hist, cmd, target, rows, bodies, pending, conn_mode=None, dopts=None, prefix=None,
-             none_key=False):
+             none_key=False, pm_int=False):
     inp = {"dialect": dialect, "override": override, "perMig": per_mig, "hist": hist, "cmd": cmd,
            "target": target, "rows": rows, "bodies": {k: [list(s) for s in v] for k, v in bodies.items()},
            "conn": conn_mode}
@@ -320,8 +323,11 @@ def one_case(ctx, dialect, override, per_mig, hist, cmd, target, rows, bodies, p
         ctx.hist("configure_calls_before_the_judged_one", len(prefix))
     if none_key:
         inp["noneKey"] = True
+    if pm_int:
+        inp["perMigInt"] = True
+    ctx.hist("transaction_per_migration_given_as", "int 0/1" if pm_int else "bool")
     ctx.hist("transactional_ddl_option", "given" if override is not None else ("key present, value None" if none_key else "absent"))
-    r = run_impl(dialect, override, per_mig, hist, cmd, target, rows, bodies, conn_mode, dopts, prefix, none_key)
+    r = run_impl(dialect, override, per_mig, hist, cmd, target, rows, bodies, conn_mode, dopts, prefix, none_key, pm_int)
     ctx.hist("configured_with", conn_mode or ("dialect_name" if prefix is None else "EnvironmentContext.configure(dialect_name)"))
     ctx.evaluation()
     ctx.hist("dialect", dialect)
@@ -410,6 +416,11 @@ def run(ctx, n_cases=None, rng_name="main"):
             for pm in (False, True):
                 one_case(ctx, d, None, pm, hist, cmd, target, rows, bodies, pending, none_key=True)
                 one_case(ctx, d, None, pm, hist, cmd, target, rows, bodies, pending, none_key=True, prefix=[])
+        # transaction_per_migration given as 0 / 1 (any truth value is accepted there)
+        for d in DIALECTS:
+            for ov in (None, True):
+                for pm in (False, True):
+                    one_case(ctx, d, ov, pm, hist, cmd, target, rows, bodies, pending, pm_int=True)
         # the dialects' own offline options: batch separator switched off / customised
         for d, dopts in (("mssql", {"mssql_batch_separator": ""}), ("mssql", {"mssql_batch_separator": "BYE"}),
                          ("oracle", {"oracle_batch_separator": ""}), ("oracle", {"oracle_batch_separator": "RUN"}),
@@ -468,7 +479,7 @@ def replay(ctx, case):
     bodies = {k: [tuple(s) for s in v] for k, v in inp["bodies"].items()}
     tgt = tuple(inp["target"]) if isinstance(inp["target"], list) else inp["target"]
     r = run_impl(inp["dialect"], inp["override"], inp["perMig"], inp["hist"], inp["cmd"], tgt, inp["rows"], bodies, inp.get("conn"), inp.get("dopts"),
-                 inp.get("prefix"), bool(inp.get("noneKey")))
+                 inp.get("prefix"), bool(inp.get("noneKey")), bool(inp.get("perMigInt")))
     if "err" in r:
         return {"impl": r}
     base = {"tddl": r["tddl"], "perMig": inp["perMig"], "migs": r["migs"], "dropVT": r["dropVT"],
